@@ -1,24 +1,25 @@
 /-!
-# Model of `aiuti.itertools.split` / `exhaust`   (property C18)
+# Model of `aiuti.itertools.split` / `exhaust`   (property C18) — pair stream
 
 ```python
 def split(iterable, condition):
     if callable(condition):
-        iterable, ci = tee(iterable)          -- tee0
-        condition = map(condition, ci)
-    i1, i2 = tee(iterable)                    -- tee1
-    c1, c2 = tee(map(bool, condition))        -- tee2 (after fix 79af58b: the truth value is taken once,
-                                              --  when the condition is evaluated; `truthy` below is that value)
-    return compress(i1, c1), compress(i2, map(op.not_, c2))
+        pairs = map(lambda x: (x, bool(condition(x))), iterable)
+    else:
+        pairs = map(lambda x, c: (x, bool(c)), iterable, condition)
+    p1, p2 = tee(pairs)
+    return (x for x, c in p1 if c), (x for x, c in p2 if not c)
 ```
 
-The model is *operational*: the source iterator, the three `tee` objects (a shared buffer
-and one cursor per branch), the `map(condition, ·)` object and the two `compress` objects
-are all explicit, and every `next()` propagates down to the source exactly as in CPython
-(`compress.__next__` pulls the datum first, then the selector; `tee` pulls from the
-underlying iterator only when a branch is at the end of the shared buffer).  The model logs
-every element handed out by the source and every argument the callable is applied to, so
-"evaluated once" and "lazily" are statements about these logs.
+Every element travels together with its decision through **one** `tee`, so the two sides cannot get
+out of step, whatever the condition does.  The model is operational: the source iterator, the
+condition iterator (or the callable with its call log), the `map` object, the `tee` (a shared buffer
+and one cursor per branch) and the two generator expressions (each with its "finished" flag: a
+generator that has stopped stays stopped and no longer touches the `tee`) are explicit, and every
+`next()` propagates down to the source exactly as in CPython: `map` pulls the element first, then the
+decision; when the condition iterable is exhausted the element just pulled is lost; `tee` pulls from
+`map` only when a branch is at the end of the shared buffer.  The truth value of a decision is taken
+once, when the pair is built.
 
 No Mathlib import (the driver links against this file).
 -/
@@ -33,93 +34,52 @@ inductive Cond (α σ : Type) where
 structure Cfg (α σ : Type) where
   src    : List α
   cond   : Cond α σ
-  truthy : σ → Bool          -- Python truthiness of a selector value
-
-def Cond.isCallable {α σ} : Cond α σ → Bool
-  | .callable _ => true
-  | .iter _ => false
+  truthy : σ → Bool          -- Python truthiness of a decision value
 
 structure St (α σ : Type) where
   srcRest   : List α          -- what the source iterator has not produced yet
   srcPulled : List α          -- log: elements produced by the source, in order
   condRest  : List σ          -- iterable condition: not produced yet
   predLog   : List α          -- log: arguments of the callable, in call order
-  buf0 : List α               -- tee0 (callable only): shared buffer
-  a0   : Nat                  --   cursor of the branch that feeds tee1
-  c0   : Nat                  --   cursor of the branch that feeds map(condition, ·)
-  buf1 : List α               -- tee1 buffer
-  i    : Bool → Nat           -- tee1 cursors: `i true` = i1 (true side), `i false` = i2
-  buf2 : List σ               -- tee2 buffer
-  c    : Bool → Nat           -- tee2 cursors
+  buf : List (α × Bool)       -- the tee's shared buffer of (element, decision) pairs
+  cur : Bool → Nat            -- cursors of the two branches: `cur true` feeds the true side
+  fin : Bool → Bool           -- the generator expression of that side has finished
 
 def init {α σ} (cfg : Cfg α σ) : St α σ :=
   { srcRest := cfg.src, srcPulled := [],
     condRest := (match cfg.cond with | .iter l => l | .callable _ => []),
-    predLog := [], buf0 := [], a0 := 0, c0 := 0, buf1 := [], i := fun _ => 0,
-    buf2 := [], c := fun _ => 0 }
+    predLog := [], buf := [], cur := fun _ => 0, fin := fun _ => false }
 
 variable {α σ : Type}
 
-/-- `next()` on the source iterator. -/
-def pullSrc (s : St α σ) : Option α × St α σ :=
+/-- `next()` on the `map` object: the element first, then its decision. -/
+def pullPair (cfg : Cfg α σ) (s : St α σ) : Option (α × Bool) × St α σ :=
   match s.srcRest with
   | [] => (none, s)
-  | x :: r => (some x, { s with srcRest := r, srcPulled := s.srcPulled ++ [x] })
-
-/-- `next()` on the tee0 branch that feeds tee1. -/
-def pull0A (s : St α σ) : Option α × St α σ :=
-  match s.buf0[s.a0]? with
-  | some x => (some x, { s with a0 := s.a0 + 1 })
-  | none =>
-    match pullSrc s with
-    | (none, s') => (none, s')
-    | (some x, s') => (some x, { s' with buf0 := s'.buf0 ++ [x], a0 := s'.a0 + 1 })
-
-/-- `next()` on the tee0 branch that feeds `map(condition, ·)`. -/
-def pull0C (s : St α σ) : Option α × St α σ :=
-  match s.buf0[s.c0]? with
-  | some x => (some x, { s with c0 := s.c0 + 1 })
-  | none =>
-    match pullSrc s with
-    | (none, s') => (none, s')
-    | (some x, s') => (some x, { s' with buf0 := s'.buf0 ++ [x], c0 := s'.c0 + 1 })
-
-/-- `next()` on the iterator tee1 was built from. -/
-def pullItem (cfg : Cfg α σ) (s : St α σ) : Option α × St α σ :=
-  if cfg.cond.isCallable then pull0A s else pullSrc s
-
-/-- `next()` on the iterator tee2 was built from (`map(condition, ci)` or the iterable). -/
-def pullSel (cfg : Cfg α σ) (s : St α σ) : Option σ × St α σ :=
-  match cfg.cond with
-  | .callable f =>
-    match pull0C s with
-    | (none, s') => (none, s')
-    | (some x, s') => (some (f s'.predLog.length x), { s' with predLog := s'.predLog ++ [x] })
-  | .iter _ =>
-    match s.condRest with
-    | [] => (none, s)
-    | y :: r => (some y, { s with condRest := r })
+  | x :: r =>
+    let s1 : St α σ := { s with srcRest := r, srcPulled := s.srcPulled ++ [x] }
+    match cfg.cond with
+    | .callable f =>
+      (some (x, cfg.truthy (f s1.predLog.length x)), { s1 with predLog := s1.predLog ++ [x] })
+    | .iter _ =>
+      match s1.condRest with
+      | [] => (none, s1)                      -- the element just pulled is lost
+      | y :: cr => (some (x, cfg.truthy y), { s1 with condRest := cr })
 
 def bump (f : Bool → Nat) (side : Bool) : Bool → Nat :=
   fun b => if b = side then f b + 1 else f b
 
-/-- `next()` on branch `side` of tee1. -/
-def nextI (cfg : Cfg α σ) (side : Bool) (s : St α σ) : Option α × St α σ :=
-  match s.buf1[s.i side]? with
-  | some x => (some x, { s with i := bump s.i side })
-  | none =>
-    match pullItem cfg s with
-    | (none, s') => (none, s')
-    | (some x, s') => (some x, { s' with buf1 := s'.buf1 ++ [x], i := bump s'.i side })
+def setFin (f : Bool → Bool) (side : Bool) : Bool → Bool :=
+  fun b => if b = side then true else f b
 
-/-- `next()` on branch `side` of tee2. -/
-def nextC (cfg : Cfg α σ) (side : Bool) (s : St α σ) : Option σ × St α σ :=
-  match s.buf2[s.c side]? with
-  | some y => (some y, { s with c := bump s.c side })
+/-- `next()` on branch `side` of the tee. -/
+def teeNext (cfg : Cfg α σ) (side : Bool) (s : St α σ) : Option (α × Bool) × St α σ :=
+  match s.buf[s.cur side]? with
+  | some p => (some p, { s with cur := bump s.cur side })
   | none =>
-    match pullSel cfg s with
+    match pullPair cfg s with
     | (none, s') => (none, s')
-    | (some y, s') => (some y, { s' with buf2 := s'.buf2 ++ [y], c := bump s'.c side })
+    | (some p, s') => (some p, { s' with buf := s'.buf ++ [p], cur := bump s'.cur side })
 
 inductive Out (α : Type) where
   | val (x : α)
@@ -127,18 +87,16 @@ inductive Out (α : Type) where
   | outOfFuel
   deriving Repr, DecidableEq
 
-/-- `next()` on the result iterator of `side` (`compress(i, c)` for `true`,
-`compress(i, map(not_, c))` for `false`): pull a datum, then a selector; yield the datum when
-the selector's truthiness equals `side`, otherwise go round again. -/
+/-- `next()` on the result iterator of `side` (`(x for x, c in p if c)` for `true`, `… if not c` for
+`false`): take pairs from the tee until one carries this side's decision. -/
 def next (cfg : Cfg α σ) (side : Bool) : Nat → St α σ → Out α × St α σ
   | 0, s => (.outOfFuel, s)
   | fuel + 1, s =>
-    match nextI cfg side s with
-    | (none, s1) => (.stop, s1)
-    | (some x, s1) =>
-      match nextC cfg side s1 with
-      | (none, s2) => (.stop, s2)
-      | (some y, s2) => if cfg.truthy y = side then (.val x, s2) else next cfg side fuel s2
+    if s.fin side then (.stop, s)
+    else
+      match teeNext cfg side s with
+      | (none, s1) => (.stop, { s1 with fin := setFin s1.fin side })
+      | (some p, s1) => if p.2 = side then (.val p.1, s1) else next cfg side fuel s1
 
 /-- Fuel that is always enough (proved in `Lemmas`): one round per source element, plus one. -/
 def fuelOf (cfg : Cfg α σ) : Nat := cfg.src.length + 1
@@ -151,13 +109,13 @@ def run (cfg : Cfg α σ) : List Bool → St α σ → List (Bool × Out α) × 
     let (os, s2) := run cfg ops s1
     ((side, o) :: os, s2)
 
-/-- The selector sequence the condition denotes. -/
+/-- The decision sequence the condition denotes. -/
 def sels (cfg : Cfg α σ) : List σ :=
   match cfg.cond with
   | .callable f => cfg.src.mapIdx (fun k x => f k x)
   | .iter l => l
 
-/-- Specification: the (element, selector-truthiness) pairs of the first
+/-- Specification: the (element, decision) pairs of the first
 `min (len iterable) (len condition)` elements. -/
 def pairs (cfg : Cfg α σ) : List (α × Bool) := cfg.src.zip ((sels cfg).map cfg.truthy)
 
